@@ -12,8 +12,9 @@ claims = {
  "C01": dict(level="proof",
    text=("Contracts on the real code: cleanTrace, Action.Action, ToSeccompAction (total map, unset/unknown fails closed to KILL_PROCESS), sockFilter (lossless copy, quantified loop invariant), "
          "ExportBPF, Builder.Build (call-site obligation: the Policy handed to go-seccomp-bpf has exactly the translated default action, group 0 = ALLOW for Allow, group 1 = TRACE for Trace), "
-         "package initialiser (actTrace constant). All obligations discharged by SMT for all inputs."),
-   note=TRUST + "ToSeccompAction also carries C03 (a filter kill must be KILL_PROCESS so that it ends the run). ASSUMED, not verified: go-seccomp-bpf Policy.Assemble compiles the policy correctly and x/net/bpf.Assemble is lossless (dependency code; the cBPF program itself is not interpreted yet); cmd/runprog config.cleanTrace is under contract (the allow and trace lists handed to the builder are disjoint, every traced name stays traced, nothing is allowed that was not asked for; keySetToSlice trusted: range over a map).",
+         "package initialiser (actTrace constant). All obligations discharged by SMT for all inputs. "
+         "Bounded part (labelled bounded): the assembled cBPF program itself is interpreted by an independent interpreter for 35 policies x 4 architecture tags x syscall numbers 0..460 (thorough: 0..4096), their x32 aliases and 32-bit edge values, and compared with the declared policy (allow / trace / default incl. fail-closed default, foreign architecture => default, x32 => refused)."),
+   note=TRUST + "ToSeccompAction also carries C03 (a filter kill must be KILL_PROCESS so that it ends the run). ASSUMED, not verified: go-seccomp-bpf Policy.Assemble compiles the policy correctly and x/net/bpf.Assemble is lossless (dependency code; only bounded-checked through the interpreter stand-in, never counted as proved); cmd/runprog config.cleanTrace is under contract (the allow and trace lists handed to the builder are disjoint, every traced name stays traced, nothing is allowed that was not asked for; keySetToSlice trusted: range over a map).",
    design_ref="DESIGN.md §4 C01"),
  "C02": dict(level="other",
    text=("Proof part (all register values, all syscall numbers): runner/ptrace tracerHandler.Handle against a decode table taken from the system call signatures - for each of the 35 path-taking calls it decodes, exactly one policy query (two for rename/renameat/renameat2/linkat) is logged in ghost Q with the access class of the call "
@@ -52,7 +53,7 @@ claims = {
  "C08": dict(level="proof",
    text=("PrepareRLimit: length and CPU/CORE entries exact for all records (CPU hard limit never below the soft one); the rlimit loop of forkAndExecInChild issues prlimit64(0, Res_k, {Cur_k, Max_k}, NULL) with exactly the k-th listed entry's resource and soft/hard values (call-site obligation), every entry up to the loop index has been set (invariant), and a failure ends the child with the entry's index (model K); ptracer.checkUsage: time = utime in ns, memory = maxrss*1024, MLE over TLE over Normal for all 64-bit values; "
          "output collector (pipe.NewBuffer/NewPipe and its copy goroutine, model C): the cap handed to the copy is max+1, at most that many bytes reach the buffer, the rest of the stream is drained to EOF unconditionally and only then is the read end closed."),
-   note=TRUST + "not decided: positions/values of the DATA..NOFILE entries of PrepareRLimit (seven conditional appends time out; withdrawn from the contract). io.CopyN/io.Copy are modelled, not verified; that draining prevents SIGPIPE/blocking is kernel pipe behaviour.",
+   note=TRUST + "positions/values of the DATA..NOFILE entries of PrepareRLimit are not stated as proof obligations (seven conditional appends time out); they are covered by the bounded stand-in C08/rlimit (156250 records, labelled bounded, not counted as proved). io.CopyN/io.Copy are modelled, not verified; that draining prevents SIGPIPE/blocking is kernel pipe behaviour.",
    design_ref="DESIGN.md §4 C08"),
  "C09": dict(level="proof",
    text=("For all 2^32 wait words: container.convertReply and ptracer handle/trace equal the README status table (main process); an exit or fatal signal of a secondary process leaves the run going with status Normal; "
